@@ -11,7 +11,27 @@ def bitsOf : List Cps → Nat
   | [] => 0
   | e :: r => (((1 <<< (e.hi + 1 - e.lo)) - 1) <<< e.lo) ||| bitsOf r
 
+theorem testBit_mask (lo hi cp : Nat) :
+    (((1 <<< (hi + 1 - lo)) - 1) <<< lo).testBit cp = (decide (lo ≤ cp) && decide (cp ≤ hi)) := by
+  rw [Nat.testBit_shiftLeft, Nat.one_shiftLeft, Nat.testBit_two_pow_sub_one, Bool.eq_iff_iff]
+  simp only [Bool.and_eq_true, decide_eq_true_eq]
+  omega
+
+theorem eqCp_eq_decide_bits (e : Cps) (cp : Nat) :
+    e.eqCp cp = (decide (e.lo ≤ cp) && decide (cp ≤ e.hi)) := by
+  cases e with
+  | single c =>
+    show (c == cp) = (decide (c ≤ cp) && decide (cp ≤ c))
+    rw [Bool.eq_iff_iff]
+    simp only [Bool.and_eq_true, decide_eq_true_eq, beq_iff_eq]
+    omega
+  | range a b => rfl
+
 theorem testBit_bitsOf (l : List Cps) (cp : Nat) : (bitsOf l).testBit cp = memL cp l := by
-  sorry
+  induction l with
+  | nil => simp [bitsOf, memL]
+  | cons e r ih =>
+    have hr : memL cp (e :: r) = (e.eqCp cp || memL cp r) := by simp [memL]
+    rw [hr, bitsOf, Nat.testBit_or, ih, testBit_mask, eqCp_eq_decide_bits]
 
 end Precis
